@@ -509,6 +509,17 @@ pub fn run(ctx: &Ctx) -> Report {
   sb.write("statsdir/str.torrent", b"0:");
   sb.write("statsdir/empty.torrent", b"");
   {
+    // a key of seventy thousand characters, and a chain of nested keys as long
+    let mut t = format!("d4:infod6:lengthi1e4:name1:a12:piece lengthi16384e6:pieces0:e{}:{}i1ee", 70_000, "k".repeat(70_000)).into_bytes();
+    sb.write("statsdir/longkey.torrent", &t);
+    t = b"d4:infod6:lengthi1e4:name1:a12:piece lengthi16384e6:pieces0:e".to_vec();
+    t.extend_from_slice(&b"1:zd".repeat(1000));
+    t.extend_from_slice(b"1:zi1e");
+    t.extend_from_slice(&b"e".repeat(1000));
+    t.push(b'e');
+    sb.write("statsdir/chain.torrent", &t);
+  }
+  {
     // one ordinary entry and one with three hundred thousand components
     let mut t = b"d4:infod5:filesld6:lengthi1e4:pathl1:aeed6:lengthi1e4:pathl".to_vec();
     t.extend_from_slice(&b"1:a".repeat(300_000));
